@@ -44,7 +44,7 @@ fn subtag_cases(out: &mut Vec<Value>, mac: &str, kind: SubtagKind, pool: &[&str]
 pub fn cases(quick: bool, seed: u64) -> Vec<Value> {
     let mut r = Rng::new(mix(&[seed, 0xC16]));
     let mut out: Vec<Value> = vec![];
-    let k = if quick { 1 } else { 10 };
+    let k = if quick { 2 } else { 10 };
     subtag_cases(&mut out, "lang", SubtagKind::Language, gen::LANGS, &mut r, 12 * k);
     subtag_cases(&mut out, "script", SubtagKind::Script, gen::SCRIPTS, &mut r, 8 * k);
     subtag_cases(&mut out, "region", SubtagKind::Region, gen::REGIONS, &mut r, 8 * k);
